@@ -1,7 +1,7 @@
 #!/bin/sh
 # mutest.sh <seeded-dir> <property-id> [extra vcheck args]: run a check against a scratch copy of /repo/pexpect
 # carrying the seeded patch (SYMX_PEXPECT_ROOT override); prints the check's verdict lines.
-D="$1"; P="$2"; shift 2
+D="$(cd "$1" && pwd)"; P="$2"; shift 2
 T=$(mktemp -d /tmp/mut_XXXXXX)
 cp -r /repo/pexpect "$T/pexpect"
 ( cd "$T" && patch -p1 -s < "$D/patch.diff" ) || { echo "patch failed"; rm -rf "$T"; exit 9; }
